@@ -632,7 +632,10 @@ def c13(tier):
                 # encrypted entries among the old ones (the property promises nothing about their content, but the archive written
                 # around them must stay well-formed - header fields of old records re-emitted as they were - and they must still decrypt)
                 ents = [{"name": b"e/plain", "method": 8, "data": b"plain " * 30},
-                        {"name": b"e/aes2", "method": 8, "data": b"aes two " * 20, "enc": ("aes", 2, 3, b"base-pw"), "z64": {"usize", "csize"}, "lz64": True},
+                        # (sizes of 64 KiB and more: after the round the record's values sit next to exact 32-bit fields - surplus values a
+                        #  reader has to skip by the record's declared length to reach the AE-x record behind it)
+                        {"name": b"e/aes2", "method": 0 if i % 24 == 11 else 8, "data": bytes((7 * j_) % 253 for j_ in range(70000 + i)),
+                         "enc": ("aes", 2, 3, b"base-pw"), "z64": {"usize", "csize"}, "lz64": True},
                         {"name": b"e/zc", "method": 0, "data": b"zipcrypto stored", "enc": ("zc", b"base-pw")},
                         {"name": b"e/aes1", "method": 0, "data": b"aes one", "enc": ("aes", 1, 1, b"base-pw"), "cextra": [(0xbeef, b"x")], "aes_first": i % 2 == 0}]
                 g.r.shuffle(ents)
